@@ -817,9 +817,11 @@ def c13(run):
     if run.tier != "thorough":
         # three-round histories (a second Reset) in the quick tier: a seeded sample of simulated behaviours
         cfgs.insert(1, ("Lifecycle_reset_sim", "L1 ResetClean on simulated 3-round histories + export", {"simulate": 120, "depth": 30, "seed": run.seed, "workers": 4}))
+        cfgs.insert(2, ("Lifecycle_mixed_sim", "L1 ResetClean on simulated 3-round histories mixing direct additions and LoadPolicies + export", {"simulate": 150, "depth": 40, "seed": run.seed, "workers": 4}))
         cfgs.insert(2, ("Lifecycle_loadreset_sim", "L1 ResetClean on simulated 3-round histories whose content arrives through LoadPolicies + export", {"simulate": 120, "depth": 40, "seed": run.seed, "workers": 4}))
     if run.tier == "thorough":
         cfgs.insert(1, ("Lifecycle_loadreset_sim", "L1 ResetClean on simulated 3-round LoadPolicies histories + export", {"simulate": 400, "depth": 40, "seed": run.seed, "workers": 8}))
+        cfgs.insert(1, ("Lifecycle_mixed_sim", "L1 ResetClean on simulated 3-round histories mixing direct additions and LoadPolicies + export", {"simulate": 400, "depth": 40, "seed": run.seed, "workers": 8}))
         cfgs.insert(1, ("Lifecycle_reset_sim", "L1 ResetClean on simulated 3-round histories + export", {"simulate": 400, "depth": 30, "seed": run.seed, "workers": 8}))
         cfgs.insert(2, ("Lifecycle_limreset_sim", "L1 ResetClean on simulated 3-round histories of limited authorizers + export", {"simulate": 400, "depth": 30, "seed": run.seed, "workers": 8}))
     life_check(run, cfgs)
